@@ -45,11 +45,14 @@ def block(kind, n, fmt):
     if kind == "para":
         return [w("alpha") + " " + w("beta"), w("gamma") + " " + w("delta") + "."], [w("alpha"), w("beta"), w("gamma"), w("delta")], []
     if kind == "inline":
+        # (the last two marked-up words are ADJACENT: only white space - here a line break - between two inline elements)
         if rst:
-            line = "%s **%s** and *%s* then ``%s`` end%d." % (w("pre"), w("bold"), w("ital"), w("code"), n)
+            line = "%s **%s** and *%s* then ``%s`` end%d **%s** *%s*" % (w("pre"), w("bold"), w("ital"), w("code"), n, w("badj"), w("iadj"))
+            line2 = "*%s* ``%s``." % (w("jadj"), w("cadj"))
         else:
-            line = "%s B{%s} and I{%s} then C{%s} end%d." % (w("pre"), w("bold"), w("ital"), w("code"), n)
-        return [line], [w("pre"), w("bold"), w("ital"), w("code"), "end%d" % n], []
+            line = "%s B{%s} and I{%s} then C{%s} end%d B{%s} I{%s}" % (w("pre"), w("bold"), w("ital"), w("code"), n, w("badj"), w("iadj"))
+            line2 = "I{%s} C{%s}." % (w("jadj"), w("cadj"))
+        return [line, line2], [w("pre"), w("bold"), w("ital"), w("code"), "end%d" % n, w("badj"), w("iadj"), w("jadj"), w("cadj")], []
     ind = "" if rst else "  "        # epytext wants lists indented
     if kind == "bullets":
         lines = ["- %s first" % w("item"), "  %s continued" % w("cont"), "- %s second" % w("jtem"), "", "  - %s nested" % w("ktem"), "", "- %s third" % w("ltem")]
@@ -151,7 +154,11 @@ def check_doc(fmt, kinds, mask):
         return True
     pos = -1
     for wd in words:
-        i = text.find(wd, pos + 1)
+        m_ = re.search(r"(?<![A-Za-z0-9])%s(?![A-Za-z0-9])" % re.escape(wd), text[pos + 1:])
+        i = pos + 1 + m_.start() if m_ else -1
+        if i < 0 and wd in text:
+            note(why="a word of the description is glued to its neighbour (white space between words lost)", word=wd, **ctx)
+            return False
         if i < 0:
             if wd in text:
                 note(why="a word of the description appears out of source order", word=wd, **ctx)
